@@ -20,7 +20,7 @@ from props.C05 import make_pva, ST, BOX as BOX5, NAMES, COSNN, phi, lam, h, VN, 
 
 MANIFEST = dict(
     category="proof",
-    technique="symbolic execution of the real measurement classes, Jacobian helpers and measurement generators on pandas objects of sympy reals; residual structure as identities, H as the first Taylor coefficient of the residual along the library's own correction map; the 'absent' clause by executing compute_matrices on a table stand-in whose membership test is an uninterpreted decision (absent => None, present => triple, rows read only at a time found present) plus native witnesses; shared-error-model history obligations over ordered pairs of sensor configurations; Every claim is also checked for call history: the real code is run twice in the same symbolic world (primed inputs first; same captured objects and module state) and the second result must still meet the contract on every path a concrete witness input takes; value-dependent branches inside a claim are explored path by path. The frame obligations (C19's analysis) of the modules under contract are re-established under this property's name.",
+    technique="symbolic execution of the real measurement classes, Jacobian helpers and measurement generators on pandas objects of sympy reals; residual structure as identities, H as the first Taylor coefficient of the residual along the library's own correction map; the 'absent' clause by executing compute_matrices on a table stand-in whose membership test is an uninterpreted decision (absent => None, present => triple, rows read only at a time found present) plus native witnesses; shared-error-model history obligations over ordered pairs of sensor configurations; Every claim is also checked for call history: the real code is run twice in the same symbolic world (primed inputs first; same captured objects and module state) and the second result must still meet the contract on every path a concrete witness input takes; value-dependent branches inside a claim are explored path by path. The frame obligations (C19's analysis) of the modules under contract are re-established under this property's name.; Bounded stand-ins shared by all properties (labelled bounded, never counted as proved): the argument-form battery of the modules under contract (batches of 1 and 1200 rows, integer-typed values, labels / columns in other orders, extra labels); where the frame analysis finds state that outlives a call (a cache, a memo) the frame obligation becomes a dynamic purity contract against pristine process states; names the proofs replace by scipy contracts are checked to be bound to the library's functions (else a differential test).",
     text="For Position, NedVelocity and BodyVelocity, all pva (|pitch|<=85 deg), symbolic lever arms and None, with and without body rates in the state, and both altitude modes: the residual is proved to be predicted-minus-measured in the documented units including the C*l and C*(w x l) terms; H*x is proved equal to the first-order change of the residual when the INS state is displaced by the error vector x under the library's own correction convention (so H is the Jacobian, lever-arm and rate terms included); R = sd^2 I with the dimension of z and H; the only path returning None is the membership test at entry; noise-free generated measurements give zero residual at the true state and an injected error e gives -e to first order (exactly -e for the velocity types).",
     note="A1-A6; scipy Rotation contracts; pandas `time in index` / .loc label lookup assumed and executed on a concrete one-row index; RNG draws are symbols (generator stubs return them); Taylor's theorem.",
 )
